@@ -34,7 +34,16 @@ def _decode(b):
                 in_thread=[b['got'][0], b['got'][1], f(b['got'][2]), f(b['got'][3])])
 
 
-def run_one(mon, req, strings, threads, calls, yld, env, seed, ref=None, first=-1, fileeps=0):
+def run_one(*a, **kw):
+    """a wall-clock watchdog is no verdict: a run that timed out is repeated once (same seed) before a hang is reported"""
+    r = _run_one(*a, **kw)
+    if r.get('watchdog'):
+        r = _run_one(*a, **kw)
+        r['repeated_after_watchdog'] = True
+    return r
+
+
+def _run_one(mon, req, strings, threads, calls, yld, env, seed, ref=None, first=-1, fileeps=0):
     d = tempfile.mkdtemp(prefix='xv-thr-')
     try:
         rq, st, rep = [os.path.join(d, x) for x in ('req', 'str', 'rep')]
@@ -158,7 +167,7 @@ def main(tier):
     for (i, (cfg, fl, th, calls, yld, loc)), r in results:
         where = dict(config=cfg, flavour=fl, threads=th, calls_per_thread=calls, yield_permille=yld, locale='xx_VERIF' if loc else 'C', run=i, seed=ck.seed * 1000 + i)
         if r.get('watchdog'):
-            ck.violation('c17:watchdog', 'thread run did not finish', where); continue
+            ck.violation('c17:watchdog', 'thread run did not finish within an hour, twice in a row with the same seed', where); continue
         for t in r['tsan']:
             ck.violation('tsan:%s:%s' % (t['kind'], '+'.join(t['funcs'])), 'ThreadSanitizer %s involving %s' % (t['kind'], ', '.join(t['funcs'])), dict(where, report=t['text']))
         rep = r.get('report')
